@@ -16,6 +16,7 @@ import (
 
 // CheckSpec is the per-property entry of checks.json.
 type CheckSpec struct {
+	Solver      string    `json:"solver"` // overrides the default solver for this property
 	Level       string    `json:"level"`
 	Explanation string    `json:"explanation"`
 	Assumptions []string  `json:"assumptions"`
@@ -23,18 +24,20 @@ type CheckSpec struct {
 }
 
 type JobSpec struct {
-	Module       string   `json:"module"` // "v2", "root" or "both"
-	Pkg          string   `json:"pkg"`
-	Func         string   `json:"func"`
-	Quick        string   `json:"quick"`
-	Thorough     string   `json:"thorough"`
-	Twin         bool     `json:"twin"`   // vacuity witness: must produce a violation
-	Covers       []string `json:"covers"` // labels that must be reached
-	MaxPaths     int      `json:"max_paths"`
-	TimeoutS     int      `json:"timeout_s"`
-	Budget       int64    `json:"budget"`
-	Gen          bool     `json:"gen"` // needs generated bindings
-	BudgetIsHang bool     `json:"budget_is_hang"`
+	Module         string   `json:"module"` // "v2", "root" or "both"
+	Pkg            string   `json:"pkg"`
+	Func           string   `json:"func"`
+	Quick          string   `json:"quick"`
+	Thorough       string   `json:"thorough"`
+	Twin           bool     `json:"twin"`   // vacuity witness: must produce a violation
+	Covers         []string `json:"covers"` // labels that must be reached
+	MaxPaths       int      `json:"max_paths"`
+	TimeoutS       int      `json:"timeout_s"`
+	Budget         int64    `json:"budget"`
+	Solver         string   `json:"solver"`
+	QueryTimeoutMs int      `json:"query_timeout_ms"`
+	Gen            bool     `json:"gen"` // needs generated bindings
+	BudgetIsHang   bool     `json:"budget_is_hang"`
 }
 
 type KnownFinding struct {
@@ -138,6 +141,10 @@ func cmdCheck(args []string) int {
 		fmt.Fprintf(os.Stderr, "no check for %s\n", prop)
 		return 2
 	}
+	if spec.Solver != "" {
+		*solverKind = spec.Solver
+		solverKindGlobal = spec.Solver
+	}
 	var known KnownFile
 	if kb, err := os.ReadFile(filepath.Join(verifDir(), "known_findings.json")); err == nil {
 		if err := json.Unmarshal(kb, &known); err != nil {
@@ -230,7 +237,12 @@ func cmdCheck(args []string) int {
 			if js.Twin {
 				job.Expect = "violation"
 			}
-			res := explore(job, *workers, *solverKind)
+			sk := *solverKind
+			if js.Solver != "" {
+				sk = js.Solver
+			}
+			job.QueryTimeoutMs = js.QueryTimeoutMs
+			res := explore(job, *workers, sk)
 			results = append(results, res)
 			if *verbose {
 				printJobResult(res, false)
